@@ -84,10 +84,10 @@ CLAIMS['C02'] = dict(
     text=('The decision table of the property is enumerated as abstract input classes (range of each unit at the cursor x units remaining: '
           '48 UTF-8, 10 UTF-16, 3 UTF-32 classes); validate_utf8, cleanup_utf8, extract_utf8 and every converter are interpreted for one '
           'arbitrary iteration under each class, mode and flag (735 runs) and must accept / reject / substitute exactly as the table says, '
-          'skipping exactly one unit on rejection. Every converter that takes a mode is also interpreted exactly (no loop abstraction) on all '
+          'skipping exactly one unit on rejection; an accepting iteration that steps over more units than the sequence at the cursor (a validator skipping runs of ASCII a block at a time) is judged by which units it read on that path: a unit stepped over unread, inside the input, is accepted whatever it is (finding; witness: a stray continuation byte there). Every converter that takes a mode is also interpreted exactly (no loop abstraction) on all '
           'inputs of one and of two units under substitute_invalid and returns the success code on every path (substitution never fails). '
           'Error mapping, set() dispatch, substitute constants and the spelling of all 111 '
-          'instantiated default arguments (AST query) complete the argument; induction over iterations extends it to whole inputs.'),
+          'instantiated default arguments (AST query) complete the argument; induction over iterations extends it to whole inputs. Concatenation of raw text (operator+ with const char* / char8_t*, which += forwards to) hands the validator exactly the raw operand: a validated range that also holds bytes of the ST::string operand (followed through bulk copies) is a finding.'),
     note=('relative to: clang-14 lowering, STIR, the transcribed table; behaviour of assume_valid on malformed input is only required to be '
           'total (C03); 5 default arguments in never-instantiated 16-bit-wchar_t templates are not covered'),
     technique='static analysis: exhaustive abstract case analysis by path-sensitive interpretation of loop iterations; clang-query AST facts')
@@ -119,11 +119,11 @@ CLAIMS['C08'] = dict(
     level='proof',
     text=('substr, left and right are interpreted with start, count and n free over their whole 64-bit type and a symbolic string size in '
           'both storage classes; on every path the copied range lies inside the string, no allocation exceeds the source, and the '
-          '(offset,length) of the result is compared with the clamp formula of the property (mismatches come with concrete witnesses). '
+          '(offset,length) of the result is compared with the clamp formula of the property (mismatches come with concrete witnesses; a path whose own conditions do not single out a case of the formula is refined by each case in turn). '
           'The trim walks are shown to stay inside [0,size] (widening with verified cursor bounds) and to call substr inside the string. '
           'The 12 before_/after_ overloads are interpreted with the search result as a symbol: on a match the slice is left(i) / '
           'substr(i + length of the separator searched for), without a match the whole / empty string as the property tabulates; every read '
-          'of the string\'s storage on every explored path of these members lies inside it (a violation comes with a witness).'),
+          'of the string\'s storage on every explored path of these members lies inside it (a violation comes with a witness). A trim that tests units against a folded form of the character set (bit set, table) instead of find_cs: the place it reads, as a function of the unit (bit provenance of offset and shift), must differ for any two unit values (witness: two units selecting the same place).'),
     note=('relative to: clang-14 lowering, STIR, C05 (storage of size()+1 units terminated at size()), C07 for the meaning of the index '
           'returned by find/find_last; which bytes a trim removes (membership in the set) is delegated to find_cs'),
     technique='static analysis: abstract interpretation with free scalars at full range (linear terms + intervals), oracle clamp formula, witness search')
@@ -150,7 +150,7 @@ CLAIMS['C12'] = dict(
           'digit generator may not have written fewer characters than the value needs in the radix), no signed operation on the '
           'way can overflow (witness: the most negative value) and no abs() family call exists; the digit loop of every uint_formatter<U> '
           'is summarised per iteration (value := value / radix, one unit stored backwards, from index digits of a digits+1 buffer) which '
-          'with the halving lemma bounds it by the width of U; the 7 parsing members are interpreted against the ok / full_match table '
+          'with the halving lemma bounds it by the width of U; the character stored per digit value and case flag is checked by finite case analysis, also on paths that bypass the loop (witness value / radix / case); the 7 parsing members are interpreted against the ok / full_match table '
           'with the strto* end position symbolic (embedded NULs included).'),
     note=('relative to: clang-14 lowering, STIR, the strto* model and the lemma that division by a radix >= 2 reaches 0 within bit-width '
           'steps; bases 2..36; what strto* returns and that the quotient/remainder sequence spells the canonical digits is libc / arithmetic'),
@@ -160,10 +160,10 @@ CLAIMS['C13'] = dict(
     text=('Equality with printf holds by delegation to the same C library; what is decided statically is everything around that call, for '
           'all 16 (sign flag, precision given, notation) combinations of ST::format\'s renderer and for float_formatter: the assembled '
           'conversion string is exactly %[+][.digits]{e,E,f,g} NUL-terminated (assembled in a buffer, or a literal with the precision passed through .*), the size given to snprintf is the size of its destination, no '
-          'assertion is reachable whatever length snprintf reports (the length is an unbounded symbol), the emitted length is the reported '
+          'assertion is reachable whatever snprintf reports - any length (an unbounded symbol) or, when the conversion carries a precision, its failure return (<= 0: the rendering does not fit an int) -, the emitted length is the reported '
           'one and the pad count is width - length on the requested side; to_float / to_double call strtof / strtod directly and follow '
           'the ok / full_match table.'),
-    note=('relative to: clang-14 lowering, STIR, the snprintf model (writes at most size bytes, returns the untruncated length >= 1); the '
+    note=('relative to: clang-14 lowering, STIR, the snprintf model (writes at most size bytes, returns the untruncated length >= 1, or a value <= 0 when a precision / width in the conversion string can make the rendering longer than INT_MAX); the '
           'digits produced are libc\'s - not analysed, which is why the level is not "proof" of the value equation'),
     technique='static analysis: abstract interpretation around the libc call with the printed length symbolic; conversion-string reconstruction per flag combination')
 CLAIMS['C14'] = dict(
@@ -198,7 +198,7 @@ CLAIMS['C09'] = dict(
           'the end; the sizing scan of replace adds |to|-|from| (mod 2^64) per occurrence and the copying scan copies the gap then `to` '
           'and advances the output by gap+|to|, both scans issuing the same search; tokenize emits only non-empty ranges of the string, '
           'tests delimiters with find_cs on the whole set and never reads outside [0,size]; a result of replace produced without searching is '
-          'justified only by an empty text / pattern or a byte-for-byte identical replacement. The overloads are shown to forward to the cores. '
+          'justified only by an empty text / pattern or a byte-for-byte identical replacement; a searching loop of a helper that replace calls (a counting pass) must resume behind the whole match like the copying scan; a tokenize that tests units against a folded delimiter set must select a different place for every unit value. The overloads are shown to forward to the cores. '
           'Decided: these step facts. Not decided: that the search returns the FIRST match (C07), join (a plain concatenation loop), and the '
           'induction from steps to whole-string equations, which is stated in DESIGN.md but not mechanised.'),
     note=('relative to: clang-14 lowering, STIR, C05, C07; a codec that tests delimiters by other means than find_cs is reported undecided'),
@@ -245,8 +245,8 @@ CLAIMS['C17'] = dict(
           'that runs count times (or forwards to string_stream::append_char); every format / format_latin_1 / printf / writef / _stfmt '
           'instantiation builds one writer over its format string and runs apply_format, the string forms ending in to_string(true, mode) '
           'resp. to_string(false, assume_valid); operator<< inserts basic_string(b.data(), b.size()) of to_buffer(b) and operator>> sets '
-          'the string from the extracted token (c_str(), size()). Not decided: that libc / iostream deliver what they are handed, what the '
-          'conversions and the driver produce (C01-C03, C10, C11); for a writer that stages bytes in a buffer of its own the call-order clause is decided (no byte of a later call reaches the sink while staged bytes may be pending: witness with one staged byte), that it flushes everything in the end is reported undecided; a writer that chunks or re-encodes piecewise is undecided.'),
+          'the string from the extracted token (c_str(), size()), a token object that is empty when the extraction starts on every path (a basic_string that outlives the call and is not cleared keeps the previous token when the stream yields none). Not decided: that libc / iostream deliver what they are handed, what the '
+          'conversions and the driver produce (C01-C03, C10, C11); for a writer that stages bytes in a buffer of its own the call-order clause is decided (no byte of a later call reaches the sink while staged bytes may be pending: witness with one staged byte), that it flushes everything in the end is reported undecided; a writer that transcodes its text in pieces is a finding when a piece can end inside a multi-byte character (witness: a well-formed text with that character across the cut, on a first-iteration path), otherwise undecided.'),
     note=('relative to: clang-14 lowering, STIR, libc / libstdc++ output primitives trusted, C10 (dispatch only through append / append_char), '
           'C16; writers instantiated in gen/driver.cpp; level "other": necessary hand-over facts plus a stated (not mechanised) induction over the call sequence'),
     technique='static analysis: abstract interpretation of the sink members with symbolic arguments (sink-call events vs the arguments received), call-graph facts for the entry points')
